@@ -108,12 +108,20 @@ def run(filters, jobs=16, timeout=7200, exact=False, extra=None, log_path=None):
     if extra:
         cmd += extra
     t0 = time.time()
+    # own process group: on a timeout the whole tree (cargo -> kani-driver -> cbmc) is killed, no orphan solver is left behind
+    pr = subprocess.Popen(cmd, cwd=REPO, env=kani_env(), stdout=subprocess.PIPE, stderr=subprocess.STDOUT, text=True,
+                          start_new_session=True)
     try:
-        p = subprocess.run(cmd, cwd=REPO, env=kani_env(), stdout=subprocess.PIPE, stderr=subprocess.STDOUT,
-                           text=True, timeout=timeout)
-        out, rc = p.stdout, p.returncode
-    except subprocess.TimeoutExpired as e:
-        out = (e.stdout or b"").decode() if isinstance(e.stdout, bytes) else (e.stdout or "")
+        out, _ = pr.communicate(timeout=timeout)
+        rc = pr.returncode
+    except subprocess.TimeoutExpired:
+        import signal
+        try:
+            os.killpg(pr.pid, signal.SIGKILL)
+        except OSError:
+            pass
+        out, _ = pr.communicate()
+        out = out or ""
         rc = -9
     wall = time.time() - t0
     if log_path:
@@ -142,12 +150,18 @@ def concrete_playback(harness, timeout=900):
     (each a list of byte vectors, one per kani::any() draw, in order) or None."""
     cmd = ["cargo", "kani"] + KANI_FLAGS + ["-Z", "concrete-playback", "--concrete-playback=print",
                                             "--exact", "--harness", harness, "--output-format", "terse"]
+    pr = subprocess.Popen(cmd, cwd=REPO, env=kani_env(), stdout=subprocess.PIPE, stderr=subprocess.STDOUT, text=True,
+                          start_new_session=True)
     try:
-        p = subprocess.run(cmd, cwd=REPO, env=kani_env(), stdout=subprocess.PIPE, stderr=subprocess.STDOUT,
-                           text=True, timeout=timeout)
+        out, _ = pr.communicate(timeout=timeout)
     except subprocess.TimeoutExpired:
+        import signal
+        try:
+            os.killpg(pr.pid, signal.SIGKILL)
+        except OSError:
+            pass
+        pr.communicate()
         return None, "concrete playback timed out"
-    out = p.stdout
     k = out.find("Checking harness")
     if k >= 0:
         out = out[k:]
